@@ -26,6 +26,7 @@ type c13Expr struct {
 var c13Env = map[string]any{
 	"n": 7, "m": 3, "z": 0, "digits": "21", "pad": "010", "pad8": "08", "hexs": "0x10", "under": "1_000", "s": "hello", "t": "World", "e": "", "yes": true, "no": false,
 	"obj": map[string]any{"k": "kv", "num": 5, "flag": true}, "lst": []any{10, 20, 30}, "st": S2{X: 4, Y: "why"}, "uni": "žába", "fl": 2.5, "negf": -2.75, "bigf": 1234567.89, "tiny": 0.00000015, "big": 1234567,
+	"box": map[string]any{"length": 120, "width": 60, "height": 40},
 }
 
 type c13Gen struct {
@@ -424,6 +425,9 @@ func c13Pipes() []c13Pipe {
 		{"arg variable", "n | add(m)", "10", ""}, {"string + int arg", "s | repeat(2)", "hellohello", ""}, {"int to float param", "n | money", "$7.00", ""},
 		{"bool param", "yes | yesno", "yes", ""}, {"any param", "obj.k | ident | upper", "KV", ""}, {"variadic none", "n | sum", "7", ""}, {"variadic two", "n | sum(1, 2)", "10", ""},
 		{"variadic strings", "s | joinall('a', 'b')", "ahellob", ""}, {"string digits to int", "digits | double", "42", ""}, {"int to string param", "n | strict", "<7>", ""},
+		// a map key is a key whatever it is called: `length` (a JavaScript property name) is not the number of keys
+		{"key named length", "box.length", "120", ""}, {"key named length in arithmetic", "box.length + 1", "121", ""}, {"key named length times", "box.length * 2", "240", ""},
+		{"key named length compared", "box.length > 100", "true", ""}, {"key named length as argument", "n | add(box.length)", "127", ""}, {"sibling key", "box.width + 1", "61", ""},
 		// digit strings are DECIMAL, leading zeros included; a base prefix or an underscore makes a string no number
 		{"zero-padded digits to int", "pad | double", "20", ""}, {"zero-padded 08 to int", "pad8 | double", "16", ""}, {"zero-padded literal to int", `double("010")`, "20", ""},
 		{"zero-padded digits as second argument", "n | add(pad)", "17", ""}, {"hex-looking string is no number", "hexs | double", "", "double"}, {"underscored string is no number", "under | double", "", "double"},
